@@ -972,6 +972,28 @@ pub fn make(profile: &str, seed: u64, index: u64) -> (Params, Extras) {
             if seed & 1 == 0 && p.net.delay_us < 20_000 {
                 p.net.delay_us += 20_000;
             }
+            if index % 4 == 2 {
+                // address validation by Retry with more than one Initial outstanding when it
+                // arrives: a long path (the client's probe timeout fires first) or a lost Retry
+                let mut r = Rng::new(seed ^ 0xc09e);
+                p.retry = true;
+                match r.below(3) {
+                    0 => p.net.delay_us = r.range(600_000, 1_500_000),
+                    1 => {
+                        p.net.drop_idx[1].insert(0);
+                    }
+                    _ => {
+                        p.net.drop_idx[1].insert(0);
+                        p.net.drop_idx[1].insert(1);
+                    }
+                }
+                for c in p.clients.iter_mut() {
+                    c.cfg.handshake_ms = c.cfg.handshake_ms.max(20_000);
+                    c.cfg.idle_timeout_ms = c.cfg.idle_timeout_ms.max(30_000);
+                }
+                p.server.handshake_ms = p.server.handshake_ms.max(20_000);
+                p.server.idle_timeout_ms = p.server.idle_timeout_ms.max(30_000);
+            }
             if index % 4 == 1 {
                 // migration between paths with clearly different round-trip times while data
                 // is in flight: packets sent on the old path are judged against ITS estimates
